@@ -36,6 +36,11 @@ type funcContract struct {
 	noreturn bool
 	pure     bool
 	props    []string // property ids this function is verified for
+	implements string  // key suffix of a functype/iface contract whose clauses this function must satisfy
+	recovers string    // a deferred function recovers panics of this type (callee panics of that type are not propagated)
+	preciseAppend bool // generate quantified content facts for append (needed only by functional contracts on slices)
+	decrGroup string   // recursion group of the measure: only calls within one group are compared
+	fdecr    []*clause // function-level termination measure (lexicographic), checked at every call in the recursion group
 	file     string
 	line     int
 }
@@ -67,13 +72,15 @@ type contracts struct {
 	frameRoots []string
 	freshResults []string
 	globalRoots []string
+	funcFields map[string]string // "pkg.Type.field" -> function key
 }
 
 func (c *contracts) get(key string) *funcContract { return c.funcs[key] }
 
 var clauseKeywords = map[string]bool{"func": true, "pred": true, "spec": true, "requires": true, "ensures": true, "assigns": true,
 	"loop": true, "panics": true, "inline": true, "trusted": true, "noreturn": true, "props": true, "pure": true,
-	"field": true, "evaltype": true, "frameroot": true, "freshresult": true, "globalroot": true}
+	"field": true, "evaltype": true, "frameroot": true, "freshresult": true, "globalroot": true,
+	"implements": true, "recovers": true, "decreases": true, "funcfield": true, "precise-append": true}
 
 func loadContractFile(c *contracts, path string, pkgpath string) error {
 	data, err := os.ReadFile(path)
@@ -123,7 +130,7 @@ func loadContractFile(c *contracts, path string, pkgpath string) error {
 	for _, r := range raws {
 		kw, rest := splitKw(r.text)
 		tag := ""
-		if strings.HasPrefix(rest, "[") && (kw == "ensures" || kw == "requires") {
+		if strings.HasPrefix(rest, "[") && (kw == "ensures" || kw == "requires" || kw == "decreases") {
 			k := strings.Index(rest, "]")
 			tag = rest[1:k]
 			rest = strings.TrimSpace(rest[k+1:])
@@ -200,6 +207,34 @@ func loadContractFile(c *contracts, path string, pkgpath string) error {
 			default:
 				return fmt.Errorf("%s:%d: bad loop clause kind %s", path, r.line, f[1])
 			}
+		case "precise-append":
+			cur.preciseAppend = true
+		case "implements":
+			cur.implements = rest
+		case "recovers":
+			cur.recovers = rest
+		case "decreases":
+			if cur == nil {
+				return fmt.Errorf("%s:%d: clause outside func", path, r.line)
+			}
+			cur.decrGroup = tag
+			for _, part := range splitTop(rest, ',') {
+				cl, err := mk("decreases", -1, strings.TrimSpace(part))
+				if err != nil {
+					return err
+				}
+				cur.fdecr = append(cur.fdecr, cl)
+			}
+		case "funcfield": // funcfield pkg.Type.field function : the field always holds exactly this function
+			f := strings.Fields(rest)
+			if len(f) != 2 {
+				return fmt.Errorf("%s:%d: bad funcfield", path, r.line)
+			}
+			if c.funcFields == nil {
+				c.funcFields = map[string]string{}
+			}
+			c.funcFields[f[0]] = pkgpath + "." + f[1]
+			cur = nil
 		case "panics":
 			cur.panics = rest
 		case "inline":
